@@ -10,7 +10,7 @@ from ref import codec as C
 PROPERTY = 'C05'
 LEVEL = 'exploration'
 RULE = ('a case = one stack configuration (data link layer; 0-3 CAs, each not started / waiting for veto / operational by claim / operational by '
-        'bypass / cannot-claim / moved to another address after a loss; ECU-level listeners: unfiltered, integer address, predicate) into which a '
+        'bypass / cannot-claim / moved to another address after a loss; ECU-level listeners: unfiltered, integer address, predicate; CA listeners subscribed before start() or only once the CA is operational (just before it loses the address again); listeners that were subscribed - also back to back for two addresses - and removed again) into which a '
         'scripted node injects, for ALL 256 destination addresses: PDU1 single frames (data page 0 and 1), and for unowned destinations TP.CM RTS / '
         'CTS / EndOfMsgACK / abort, TP.DT, requests and destination-specific address-claimed frames naming a local CA\'s address (FD: Multi-PG, FD.TP.CM RTS/CTS/EOMS/EOMA/abort, FD.TP.DT); PDU2 frames for 3 PF x all 256 PS; complete '
         'and partial foreign RTS/CTS and BAM sessions between two other nodes; all 8 (extended, remote, error) flag combinations; oracle = the set '
@@ -21,7 +21,8 @@ ASSUMPTIONS = ['the expected set is computed from the harness\'s own bookkeeping
                'for owned destinations only single-frame messages are judged here (transport to owned addresses is C01/C02/C03)']
 MIN_OBS = {'frames_injected': {'quick': 250000, 'thorough': 3000000}, 'unowned_protocol_frames': {'quick': 100000, 'thorough': 1000000},
            'callbacks_expected': {'quick': 100000, 'thorough': 1000000}, 'flag_combinations': {'quick': 1000, 'thorough': 10000},
-           'foreign_sessions': {'quick': 300, 'thorough': 3000}, 'listener_at_address_0': {'quick': 5, 'thorough': 50}}
+           'foreign_sessions': {'quick': 300, 'thorough': 3000}, 'listener_at_address_0': {'quick': 5, 'thorough': 50},
+           'late_subscriptions': {'quick': 30, 'thorough': 300}, 'removed_listeners': {'quick': 60, 'thorough': 600}}
 
 CA_STATES = ['none', 'wait_veto', 'normal', 'bypass', 'cannot', 'moved']
 
@@ -69,6 +70,9 @@ def run_case(case):
             if a not in used and a + 1 not in used and a - 1 not in used:
                 used.add(a)
                 return a
+    lrng = random.Random(case['seed'] ^ 0x1A7E)
+    late_subs = [0]
+    ghosts = [0]
     LOW = C.name_value(identity_number=1)            # contender NAME lower than every CA's
     for i, st in enumerate(case['cas']):
         aac = 1 if st == 'moved' else rng.randrange(2) if st != 'cannot' else 0
@@ -84,7 +88,19 @@ def run_case(case):
         rec = dict(ca=ca, want=st, pref=pref, name=nv, held=None)
         cas.append(rec)
         nm = 'ca%d' % i
-        ca.subscribe(mkcb(nm))
+        # the application subscribes before start() -- or only once the CA is operational (and, for 'cannot' / 'moved', just before it loses
+        # the address again): what the listener is bound to must follow the CA, not the instant of the subscription
+        late = st in ('normal', 'cannot', 'moved') and lrng.random() < 0.35
+        if late:
+            sim.at(0.38, ca.subscribe, mkcb(nm))
+            late_subs[0] += 1
+        else:
+            ca.subscribe(mkcb(nm))
+        if lrng.random() < 0.25:
+            g = mkcb('removed_ca%d' % i)          # a listener that is removed again must stay silent
+            ca.subscribe(g)
+            ca.unsubscribe(g)
+            ghosts[0] += 1
         listeners[nm] = dict(kind='ca', idx=i)
         if st == 'wait_veto':
             sim.at(0.9, ca.start, 0.001)
@@ -111,6 +127,17 @@ def run_case(case):
             accept = frozenset(rng.sample(range(0, 254), 6) + ([cas[0]['pref']] if cas else []) + [listeners[k]['addr'] for k in listeners if listeners[k]['kind'] == 'int'][:1])
             A.ecu.subscribe(mkcb('ecu_pred'), lambda d, _s=accept: d in _s)
             listeners['ecu_pred'] = dict(kind='pred', accept=accept)
+    if lrng.random() < 0.35:
+        # one callback registered back to back for two addresses nobody else owns, then removed: afterwards both addresses are foreign again
+        g = mkcb('removed_ecu')
+        ga = [fresh(2, 250), fresh(2, 250)]
+        for a in ga:
+            A.ecu.subscribe(g, a)
+        if lrng.random() < 0.5:
+            sim.at(0.5, A.ecu.unsubscribe, g)
+        else:
+            A.ecu.unsubscribe(g)
+        ghosts[0] += 1
     W.run(1.0)
     ST = W.j1939.ControllerApplication.State
     # the harness's own view of the CA states at the injection instant (cross-checked against the API, not derived from it)
@@ -151,7 +178,8 @@ def run_case(case):
                 out.add(nm)
         return out
 
-    obs = dict(listener_at_address_0=1 if 0 in int_addrs else 0, frames_injected=0, unowned_protocol_frames=0, callbacks_expected=0, flag_combinations=0, foreign_sessions=0, owned_addresses_max=len(held | int_addrs))
+    obs = dict(listener_at_address_0=1 if 0 in int_addrs else 0, frames_injected=0, unowned_protocol_frames=0, callbacks_expected=0, flag_combinations=0, foreign_sessions=0, owned_addresses_max=len(held | int_addrs),
+               late_subscriptions=late_subs[0], removed_listeners=ghosts[0])
 
     def snapshot():
         return ({k: len(v) for k, v in fired.items()}, len(W.bus.frames), (A.tables(), tuple((int(c['ca'].state), c['ca'].device_address) for c in cas)))
